@@ -7,7 +7,8 @@ mkdir -p /dev/shm/reseed-logs
 extra_for() {
   case "$1" in C14-B) echo "C12";; C13-B) echo "C20";; C04-A) echo "C13 C05";; C01-D) echo "C15";; C06-C) echo "C07";; C04-C) echo "C06";; C12-C) echo "C15";; C16-C) echo "C11";; C16-D) echo "C15";;
     C01-F) echo "C15";; C09-F) echo "C03";; C12-G) echo "C18";; C16-H) echo "C18";; C01-I|C01-J) echo "C11";; C05-J) echo "C10";; C08-I) echo "C15";; C12-I) echo "C11";; C14-I) echo "C18";; C16-J) echo "C15";;
-    C01-K|C14-K|C06-K|C08-K|C17-K|C12-K) echo "C15";; C01-L|C02-K|C04-L) echo "C18";; C11-L) echo "C01";; C15-K) echo "C08";; C18-L) echo "C16 C14";; esac
+    C01-K|C14-K|C06-K|C08-K|C17-K|C12-K) echo "C15";; C01-L|C02-K|C04-L) echo "C18";; C11-L) echo "C01";; C15-K) echo "C08";; C18-L) echo "C16 C14";;
+    C07-M) echo "C06";; C08-M) echo "C01 C03";; C02-M) echo "C18";; C06-N) echo "C01";; C12-M|C14-N) echo "C15";; C17-M) echo "C12";; esac
 }
 export -f extra_for
 ls -d seeded/*/ | xargs -n1 basename | xargs -P "$P" -I{} bash -c 'n={}; p=${n%%-*}; lib/seedcheck.sh "/verif/seeded/$n" "$n" $p $(extra_for "$n") > /dev/shm/reseed-logs/$n.log 2>&1; grep -h "check C" /dev/shm/reseed-logs/$n.log | sed "s/^/$n /" | cut -c1-160'
